@@ -74,9 +74,13 @@ int main(){
 		if(t.empty()){ std::cout << "\n"; continue; }
 		std::ostringstream os; std::string orc;
 		try{
-		if(t[0] == "sel" && t.size() >= 5 && parseInts(t, 2, a) && a.size() >= 3 && a.size() == 3 + (std::size_t)(a[1]*a[2])){
+		// `sel hvr mu m n r(m) pts`: hypervolume indicator with the explicit reference point r (points may lie beyond it)
+		bool hvr = t[0] == "sel" && t.size() >= 5 && t[1] == "hvr";
+		if(t[0] == "sel" && t.size() >= 5 && parseInts(t, 2, a) && a.size() >= 3 && a.size() == 3 + (std::size_t)(a[1]*a[2]) + (hvr ? (std::size_t)a[1] : 0)){
 			std::string ind = t[1];
 			std::size_t mu = a[0], m = a[1], n = a[2];
+			RealVector given(m, 0.0);
+			if(hvr){ for(std::size_t d = 0; d != m; ++d) given(d) = (double)a[3 + d]; a.erase(a.begin() + 3, a.begin() + 3 + m); }
 			std::vector<Ind> pop(n);
 			RealVector ref(m, -1e100);
 			for(std::size_t i = 0; i != n; ++i){
@@ -88,7 +92,8 @@ int main(){
 				pop[i].selected() = ((n + mu) % 3 == 0) ? false : (((n + mu) % 3 == 1) ? (i % 2 == 0) : true);
 				pop[i].rank() = 7;
 			}
-			if(ind == "hv"){ IndicatorBasedSelection<HypervolumeIndicator> s; s.indicator().setReference(ref); runSelection(s, pop, mu, os, orc, true); }
+			if(hvr){ IndicatorBasedSelection<HypervolumeIndicator> s; s.indicator().setReference(given); runSelection(s, pop, mu, os, orc, true); }
+			else if(ind == "hv"){ IndicatorBasedSelection<HypervolumeIndicator> s; s.indicator().setReference(ref); runSelection(s, pop, mu, os, orc, true); }
 			else if(ind == "hvnoref"){ IndicatorBasedSelection<HypervolumeIndicator> s; runSelection(s, pop, mu, os, orc, m == 2); }
 			else if(ind == "crowd"){ IndicatorBasedSelection<CrowdingDistance> s; runSelection(s, pop, mu, os, orc, true); }
 			else if(ind == "eps"){ IndicatorBasedSelection<AdditiveEpsilonIndicator> s; runSelection(s, pop, mu, os, orc, true); }
